@@ -102,10 +102,13 @@ Definition selbis (t : turbo) : list bool :=
          map (fun iad => existsb (Z.eqb iad) act) (zseq (C16.Model.prodZ (t_nx t)))
   end.
 Definition count_true (l : list bool) : Z := Z.of_nat (length (filter (fun b => b) l)).
-(* Indirection::getAToR (map storage): identity when the map is empty, -1 for an absent node *)
+(* Indirection::getAToR (map storage): identity when no indirection is defined (no selection: selbis = []),
+   -1 for an absent node, also when the selection leaves no active node at all *)
 Definition atoR (sb : list bool) (iabs : Z) : Z :=
-  if negb (existsb (fun b => b) sb) then iabs
-  else if znth sb iabs false then count_true (firstn (Z.to_nat iabs) sb) else (-1)%Z.
+  match sb with
+  | [] => iabs
+  | _ => if znth sb iabs false then count_true (firstn (Z.to_nat iabs) sb) else (-1)%Z
+  end.
 (* MeshETurbo::getNApices *)
 Definition napices (t : turbo) (sb : list bool) : Z :=
   match t_sel t with [] => C16.Model.prodZ (t_nx t) | _ => count_true sb end.
